@@ -54,6 +54,7 @@ Definition w_loop : list choice :=
    (W A, ANone);
    (W A, ANone);
    (W A, ANone);
+   (W A, ANone);
    (W A, ASend (SErr EPIPE));
    (W A, ANone);
    (W A, ANone);
@@ -110,6 +111,7 @@ Definition w_once : list choice :=
    (W A, ANone);
    (W A, ANone);
    (W A, AApp (AppDone false));
+   (W A, ANone);
    (W A, ANone);
    (W A, ANone);
    (W A, ANone);
